@@ -231,7 +231,13 @@ def c11(m, tier):
     wl.require_sites(50, 'schema facts')
     return [wl, rules_wl.rule_wrappers(m), rules_wl.rule_enumpaths(m), rules_struct.rule_forwarding(m),
             guarded('F-VAL', 'validated vertex arguments', lambda: rules_val.rule_val(m, val_engine(m))),
-            rules_decl.rule_no_recursion(m)]
+            rules_decl.rule_no_recursion(m), _orient(m, ('S-BFS', 'S-BFS-ALL'), 20)]
+
+
+def _orient(m, which, minimum):
+    r = rules_wl.rule_pred_orientation(m, which)
+    r.require_sites(minimum, 'predecessor stores inside a neighbour enumeration')
+    return r
 
 
 def c12(m, tier):
@@ -239,7 +245,7 @@ def c12(m, tier):
     wl.require_sites(10, 'schema facts')
     # heap discipline is not needed for the distances of a label-correcting search (any removal order is correct);
     # it is decided under C17 (library precondition) and C19 (work bound)
-    return [wl, heap.top]
+    return [wl, heap.top, _orient(m, ('S-LC',), 2)]
 
 
 def c19(m, tier):
@@ -644,9 +650,9 @@ ADDENDA = {
            'members are member-wise (D-VALSEM).',
     'C10': 'Also decided: every insertion into the subgraph hands over the label, the remap counter advances by one per element, '
            'hand-written special members of the returned graph are member-wise (D-VALSEM).',
-    'C11': 'Also decided: the distances start at the documented sentinel, wrappers forward their vertex arguments in order (F-FWD). No result is returned before the source has its distance; no neighbour is skipped on loop-carried state. The call graph of the library is acyclic (D-REC).',
+    'C11': 'Also decided: the distances start at the documented sentinel, wrappers forward their vertex arguments in order (F-FWD). No result is returned before the source has its distance; no neighbour is skipped on loop-carried state. The call graph of the library is acyclic (D-REC). A predecessor stored inside an enumeration of getOutNeighbours(X) is X for the enumerated neighbour, never the neighbour for X, in any loop shape and for every instantiation on a directed class (F-WL.orient).',
     'C12': 'Also decided: the entry removed from the queue is the vertex scanned (F-HEAP.top), the worklist initially holds the '
-           'source only, an associative container with unique keys is not used as the queue. No neighbour is skipped on a condition that depends on earlier iterations (scan-all). A scan skipped for vertices marked in a closed set (lazy deletion) is accepted only when F-HEAP establishes minimum-first removal for the same function; otherwise it is a violation of the label-correcting premise (S-LC closed-set).',
+           'source only, an associative container with unique keys is not used as the queue. No neighbour is skipped on a condition that depends on earlier iterations (scan-all). A scan skipped for vertices marked in a closed set (lazy deletion) is accepted only when F-HEAP establishes minimum-first removal for the same function; otherwise it is a violation of the label-correcting premise (S-LC closed-set). Predecessor stores follow the edge orientation (F-WL.orient).',
     'C13': 'Also decided: the line loop ends on the failure of std::getline (not on eof), writers that walk the neighbour lists '
            'keep every edge of a directed graph. std::getline reads from the stream itself (no std::ws before the comment test). Callables handed to the loaders are taken by value (a shared default mapper would keep its name table between calls). No store into the name table depends on a growth test `index >= size`, in the loader or in a lambda defined in it (F-IO.NAMES): names[index(x)] = x for every mapper, not only the first-appearance one.',
     'C14': 'Also decided: reads are checked and an end-of-file look-ahead is compared as an int (F-IO.READ), the stream is opened '
